@@ -28,6 +28,8 @@ def run(ctx: Ctx) -> None:
     ctx.rule("R-FIELD", "verbatim fields reach the output")
     ctx.rule("R-REWRITE-store", "text is written only into nodes proven RawText")
     ctx.rule("R-REWRITE-segments", "only RawText segments are mutable")
+    ctx.rule("R-REWRITE-scope", "inline scopes are elements with inline content of their own")
+    ctx.rule("R-REWRITE-autolink", "autolinks print their destination, never the rewritable child text")
     ctx.rule("R-REWRITE-container", "the tree walk cannot reach code / HTML / literal / autolink / ref-def nodes")
     ctx.rule("R-REWRITE-tags", "every rewriter protects template tags")
     ctx.rule("R-LOSSLESS-L5", "placeholders of atomic constructs are restored on every path")
